@@ -255,6 +255,15 @@ PREDICATES = {
 }
 
 
-def campaigns(tier):
+def _base_campaigns(tier):
     strat = st.fixed_dictionaries({"prog": dag_programs(max_funcs=6, allow_none=True), "pick": st.integers(0, 2**16 - 1)})
     return [Campaign("dag", body, strat, quick=6000, thorough=100000, describe="DAG programs x outputs x argument cuts")]
+
+
+def campaigns(tier):
+    camps = list(_base_campaigns(tier))
+    if tier == "thorough":  # coverage-guided search over the same structured cases (fuzz/hyp_fuzz.py)
+        from vlib.core import cov_fuzz_campaign
+
+        camps.append(cov_fuzz_campaign(PID, [('dag', 30000)]))
+    return camps
